@@ -58,6 +58,7 @@ type B struct {
 	refusedOn     map[int]int // label -> generation on which its resume was refused
 	holdClose     map[int]bool // labels whose close responses are withheld until ReleaseClose
 	heldCloses    map[int][]func()
+	heldAcks      []func() // acknowledgements of upstream chunks withheld while NoAnswer("chunk")
 	noAnswer      map[string]bool // kinds never answered (pending calls / metadata)
 	DialDelay     atomic.Int64
 	DialRefuse    atomic.Int32 // refuse this many dials outright (no transport)
@@ -359,6 +360,14 @@ func (b *B) handle(s *broker.Session, m message.Message) {
 		na := b.noAnswer["chunk"]
 		b.mu.Unlock()
 		b.rec(s, "chunk", label, v.StreamIDAlias, "")
+		if na {
+			b.mu.Lock()
+			al, sq := v.StreamIDAlias, v.StreamChunk.SequenceNumber
+			b.heldAcks = append(b.heldAcks, func() {
+				s.Send(&message.UpstreamChunkAck{StreamIDAlias: al, Results: []*message.UpstreamChunkResult{{SequenceNumber: sq, ResultCode: ok}}})
+			})
+			b.mu.Unlock()
+		}
 		if !na {
 			s.Send(&message.UpstreamChunkAck{StreamIDAlias: v.StreamIDAlias, Results: []*message.UpstreamChunkResult{
 				{SequenceNumber: v.StreamChunk.SequenceNumber, ResultCode: ok}}})
@@ -480,4 +489,16 @@ func (b *B) SendMetadata(s *broker.Session, label int, n uint32) error {
 	}
 	return s.Send(&message.DownstreamMetadata{RequestID: message.RequestID(1000 + 2*n + 1), StreamIDAlias: alias,
 		SourceNodeID: fmt.Sprintf("n%d", label), Metadata: &message.BaseTime{SessionID: "up", Name: fmt.Sprintf("q%d", n), BaseTime: time.Unix(1700000000, 0)}})
+}
+
+// FlushHeldAcks sends every withheld upstream chunk acknowledgement, one message each, in a burst.
+func (b *B) FlushHeldAcks() int {
+	b.mu.Lock()
+	fs := b.heldAcks
+	b.heldAcks = nil
+	b.mu.Unlock()
+	for _, f := range fs {
+		f()
+	}
+	return len(fs)
 }
